@@ -140,9 +140,18 @@ def applyPresel (s : State) : List Presel → State
 def runEdit (inp : Inputs) : List V3 × Option V3 :=
   if inp.draws.isEmpty then (inp.ops, none) else (inp.ops.dropLast, inp.ops.getLast?)
 
+/-- `!runm`: first half of the ops = positions, second half = momenta (no cell) -/
+def runEditM (inp : Inputs) : List V3 × List V3 :=
+  (inp.ops.take (inp.ops.length / 2), inp.ops.drop (inp.ops.length / 2))
+
 def runTrials (sim : Sim) : List TrialIn → State → List String → List String
   | [], _, acc => acc.reverse
   | t :: ts, s, acc =>
+    if t.name = "!runm" then
+      let (pos, mom) := runEditM t.inp
+      let s1 := newRunM sim s pos mom none
+      runTrials sim ts s1 (("U" ++ (snapshot .accepted s1).drop 1) :: acc)
+    else
     if t.name = "!run" then
       -- a run boundary: the user's edit (new positions = the ops; with a draw, the last op is the new cell), then
       -- `validate_simulation()`
